@@ -242,6 +242,21 @@ def enum_paths(body, max_paths=4000, start=0, env0=None, unroll=False):
     Returns a list of Path."""
     facts = body.facts
     out = []
+    # loop-carried locals are made symbolic when a loop head is entered, so that the one iteration
+    # explored stands for every iteration (not just the first)
+    loop_assigned = {}
+    for head, blocks in body.loops().items():
+        ls = set()
+        for bi in blocks:
+            blk = body.blocks[bi]
+            for s in blk["stmts"]:
+                if s["k"] in ("assign", "setdiscr"):
+                    ls.add(s["lhs"]["l"])
+            t = blk["term"]
+            if t["k"] == "call":
+                ls.add(t["dest"]["l"])
+                # locals mutably borrowed into calls inside the loop change too
+        loop_assigned[head] = ls
 
     def term_place(env, p):
         l = p["l"]
@@ -336,6 +351,12 @@ def enum_paths(body, max_paths=4000, start=0, env0=None, unroll=False):
                 return
             visited = visited | {bb}
             path.blocks.append(bb)
+            if bb in loop_assigned:
+                for l in loop_assigned[bb]:
+                    # temporaries defined and used within one iteration are re-assigned before use;
+                    # only locals live across the back edge matter, but havocking all is sound
+                    if l in env and l > body.argc:
+                        env[l] = ("var", l, body.local_name(l))
             blk = body.blocks[bb]
             for s in blk["stmts"]:
                 if s["k"] == "assign":
